@@ -365,12 +365,16 @@ pub struct CliCase {
   /// every other file (or the single file) is reached through a symbolic link and `--follow-symlinks` is given: the
   /// content is what is behind the link, however short the link's own text
   pub links: bool,
+  /// global `--terminal --color always`: the progress display is live (it has its own bookkeeping of bytes hashed)
+  pub progress: bool,
+  /// the last file of a directory is a hard link to the first one (same bytes under two names: two entries)
+  pub hardlink: bool,
 }
 
 impl CliCase {
   pub fn to_json(&self) -> Value {
     json!({
-      "kind": "cli", "p": self.p, "md5": self.md5, "shape": self.shape, "other_options": self.noise, "through_symlinks": self.links,
+      "kind": "cli", "p": self.p, "md5": self.md5, "shape": self.shape, "other_options": self.noise, "through_symlinks": self.links, "live_progress_display": self.progress, "last_is_hard_link_of_first": self.hardlink,
       "files": self.files.iter().map(|(n, d)| json!({"path": n, "hex": hex(d)})).collect::<Vec<_>>(),
     })
   }
@@ -380,6 +384,8 @@ impl CliCase {
       md5: v.get("md5")?.as_bool()?,
       shape: v.get("shape")?.as_str()?.to_string(),
       links: v.get("through_symlinks").and_then(|b| b.as_bool()).unwrap_or(false),
+      progress: v.get("live_progress_display").and_then(|b| b.as_bool()).unwrap_or(false),
+      hardlink: v.get("last_is_hard_link_of_first").and_then(|b| b.as_bool()).unwrap_or(false),
       noise: v.get("other_options").and_then(|a| a.as_array()).map(|a| a.iter().filter_map(|x| x.as_str().map(|s| s.to_string())).collect()).unwrap_or_default(),
       files: v
         .get("files")?
@@ -412,7 +418,12 @@ fn gen_cli(rng: &mut Rng) -> CliCase {
   }
   let noise = super::create_noise(rng, &["--md5", "--no-creation-date"]);
   let links = shape != "stdin" && rng.chance(1, 4);
-  CliCase { p, md5, shape: shape.to_string(), files, noise, links }
+  let hardlink = shape == "dir" && !links && !files.is_empty() && rng.chance(1, 5);
+  if hardlink {
+    let first = files[0].1.clone();
+    files.push(("zz-hard-link".to_string(), first));
+  }
+  CliCase { p, md5, shape: shape.to_string(), files, noise, links, progress: rng.chance(1, 4), hardlink }
 }
 
 /// Extract (pieces, [(path components, length, md5)]) from a torrent's info dict.
@@ -460,6 +471,11 @@ fn create_args(c: &CliCase, input: &str) -> Vec<String> {
   if c.links {
     a.push("--follow-symlinks".into());
   }
+  if c.progress {
+    for (i, g) in ["--terminal", "--color", "always"].iter().enumerate() {
+      a.insert(i, g.to_string());
+    }
+  }
   a
 }
 
@@ -478,6 +494,8 @@ pub fn check_cli(ctx: &Ctx, c: &CliCase) -> Option<String> {
             let _ = std::fs::create_dir_all(parent);
           }
           let _ = std::os::unix::fs::symlink(sb.path(&store), &link);
+        } else if c.hardlink && i + 1 == c.files.len() {
+          let _ = std::fs::hard_link(sb.path(&format!("content/{}", c.files[0].0)), sb.path(&format!("content/{n}")));
         } else {
           sb.write(&format!("content/{n}"), d);
         }
@@ -576,7 +594,10 @@ fn cli_part(ctx: &Ctx, report: &mut Report) {
   use rayon::prelude::*;
   let mut rng = Rng::new(ctx.seed).fork(0xC01C);
   let n = ctx.n(160, 4000);
-  let cases: Vec<CliCase> = (0..n).map(|_| gen_cli(&mut rng)).collect();
+  let mut cases: Vec<CliCase> = (0..n).map(|_| gen_cli(&mut rng)).collect();
+  // one piece length above the largest the automatic choice ever makes, with content longer than one such piece
+  // (the content is compressible on purpose: replay files hold it in hex)
+  cases.push(CliCase { p: 32 << 20, md5: true, shape: "file".into(), files: vec![("content".into(), vec![0u8; (40 << 20) + 5])], noise: vec![], links: false, progress: false, hardlink: false });
   report.correspondences.push("C01.cli: `imdl torrent create` output = spec (chunks of listed files, lengths, md5)".into());
   let results: Vec<(CliCase, Option<String>)> = cases.into_par_iter().map(|c| { let r = check_cli(ctx, &c); (c, r) }).collect();
   for (i, (c, r)) in results.into_iter().enumerate() {
